@@ -15,7 +15,59 @@ LEVEL_TEXT = ('Static lockstep, dirty=>recompute, proposal-accounting and siblin
               ' Plus exact linear-form algebra in the log domain for the estimator formulas (shell volume, evidence term, Kish sizes, per-sample weights, normalisation, f_live), marker agreement for empty shells and complete recomputation in update_shell_info.')
 
 
+def rule_NANMAX(ctx, rid='A9'):
+    """Empty shells carry NaN as their mean likelihood (the marker update_shell_info writes).  A
+    global estimator that shifts the per-shell log weights by their maximum must take that
+    maximum over the occupied shells only (np.nanmax, or after the selection): a plain
+    max over all shells is NaN as soon as one shell is empty in the current view."""
+    import ast
+    from ..cfg import cfg_of
+    from ..exprs import dotted, unparse, walk_no_nested
+    ctx.rule(rid, 'NaN marker of empty shells: reductions over the per-shell log weights skip the '
+             'marker (nan-aware maximum, or selection before the maximum)')
+    S = ctx.program.cls('Sampler')
+    n = 0
+    for name in ('n_eff', 'log_z', 'eta', 'f_live'):
+        f = S.methods.get(name)
+        if f is None:
+            continue
+        cfg = cfg_of(f)
+        # names bound to expressions that mention shell_log_l (the NaN carrier)
+        carriers = set()
+        for st in walk_no_nested(f.node):
+            if isinstance(st, ast.Assign) and isinstance(st.targets[0], ast.Name) and any(
+                    isinstance(x, ast.Attribute) and x.attr == 'shell_log_l'
+                    for x in ast.walk(st.value)) and not any(
+                    isinstance(x, ast.Subscript) for x in ast.walk(st.value)):
+                carriers.add(st.targets[0].id)
+        for c in walk_no_nested(f.node):
+            if not (isinstance(c, ast.Call) and dotted(c.func) in (
+                    'np.amax', 'np.max', 'max', 'np.amin', 'np.min') and c.args):
+                continue
+            a = c.args[0]
+            mentions = any(isinstance(x, ast.Attribute) and x.attr == 'shell_log_l'
+                           for x in ast.walk(a)) or \
+                (isinstance(a, ast.Name) and a.id in carriers)
+            selected = any(isinstance(x, ast.Subscript) for x in ast.walk(a))
+            if not mentions or selected:
+                continue
+            n += 1
+            ctx.ob(rid, 'Sampler.%s:max-skips-empty-shells' % name, False, f.where(c),
+                   '`%s` takes the maximum over ALL shells: a shell that is empty in the current '
+                   'view has the NaN marker as its mean likelihood, the maximum is NaN and so is '
+                   'the estimator (use np.nanmax or select the occupied shells first)'
+                   % unparse(c)[:50])
+        nan_ok = [c for c in walk_no_nested(f.node) if isinstance(c, ast.Call) and
+                  dotted(c.func) in ('np.nanmax', 'np.nanmin') and c.args]
+        for c in nan_ok:
+            n += 1
+            ctx.ob(rid, 'Sampler.%s:max-skips-empty-shells' % name, True, f.where(c),
+                   'the shift is the nan-aware maximum: empty shells are skipped')
+    return n
+
+
 def run(ctx):
+    rule_NANMAX(ctx)
     from ..pathrules import rule_T2_publish
     rule_T2_publish(ctx)      # a half-finished checkpoint update is never published
     from ..estimators import rule_E_shell
